@@ -17,6 +17,11 @@ import (
 //   round 2: the held-back round-0 prevotes reach the victim: a polka (for nil) at a round BELOW its locked round completes
 //            while it is locked — the unlock rule `LockedRound < vote.Round <= cs.Round` must NOT fire.
 // The schedule consists of legal deliveries only (reordering and delay); the victim is chosen by the seed.
+//
+// Variant B (every second seed): the victim is the validator that proposes round 3; it is kept in round 1 (locked on B) while
+// the others go through rounds 2 and 3 prevoting nil, and then receives the round-3 nil prevotes: a polka of a round ABOVE its
+// own completes while it is locked.  `addVote` must not unlock yet (`vote.Round <= cs.Round`): the node first enters round 3 as
+// the proposer and re-proposes its locked block, and only `enterPrecommit` unlocks.
 func lockScript(n *Net, rng *rand.Rand, res *SimResult) {
 	if len(n.Nodes) != 4 {
 		return
@@ -27,6 +32,16 @@ func lockScript(n *Net, rng *rand.Rand, res *SimResult) {
 		}
 	}
 	victim := rng.Intn(4)
+	variantB := rng.Intn(2) == 1
+	if variantB {
+		vs := n.Nodes[0].CS.VerifRoundState().Validators.Copy()
+		vs.IncrementAccum(3)
+		for i, v := range n.Vals {
+			if string(v.Address) == string(vs.GetProposer().Address) {
+				victim = i
+			}
+		}
+	}
 	fire := func(i int, step cstypes.RoundStepType) bool {
 		node := n.Nodes[i]
 		for ti, t := range node.Timeouts {
@@ -97,7 +112,9 @@ func lockScript(n *Net, rng *rand.Rand, res *SimResult) {
 		fire(i, cstypes.RoundStepPropose)
 	}
 	for _, i := range all {
-		if i != victim {
+		// (variant B lets the victim see the round-0 polka: the round-1 proposal names it as its POL round and is
+		// complete only for nodes that have those prevotes)
+		if i != victim || variantB {
 			deliver(i, 99, vote(types.VoteTypePrevote, 0, false, false))
 		}
 	}
@@ -120,6 +137,31 @@ func lockScript(n *Net, rng *rand.Rand, res *SimResult) {
 		deliver(i, 1, vote(types.VoteTypePrevote, 1, true, false))  // the nil prevote first
 		deliver(i, 2, vote(types.VoteTypePrevote, 1, false, true)) // +2/3 any, no polka
 		fire(i, cstypes.RoundStepPrevoteWait)
+	}
+	if variantB {
+		others := []int{}
+		for _, i := range all {
+			if i != victim {
+				others = append(others, i)
+				deliver(i, 99, vote(types.VoteTypePrecommit, 1, false, false)) // +2/3 nil: round 2
+			}
+		}
+		for round := 2; round <= 3; round++ {
+			for _, i := range others {
+				fire(i, cstypes.RoundStepPropose) // nobody waits for a proposal: prevote nil
+			}
+			for _, i := range others {
+				deliver(i, 99, vote(types.VoteTypePrevote, round, false, false)) // nil polka: precommit nil
+			}
+			if round == 2 {
+				for _, i := range others {
+					deliver(i, 99, vote(types.VoteTypePrecommit, round, false, false)) // +2/3 nil: round 3
+				}
+			}
+		}
+		// the victim, still in round 1 and locked, proposer of round 3, sees the round-3 polka
+		deliver(victim, 99, vote(types.VoteTypePrevote, 3, false, false))
+		return
 	}
 	for _, i := range all {
 		deliver(i, 99, vote(types.VoteTypePrecommit, 1, false, false))
